@@ -7,6 +7,7 @@ import (
 	"os/exec"
 	"path/filepath"
 	"runtime"
+	"runtime/pprof"
 	"sync"
 
 	"verifharness/vlib"
@@ -211,6 +212,11 @@ func childMain(r *vlib.Run, jobFile string) {
 	os.Setenv("TMPDIR", j.Scratch)
 	dirPrefix = fmt.Sprintf("%s%d-", j.Phase, j.Shard)
 	w := &world{r: r, scratch: j.Scratch, fams: j.Fams, child: &j, p: tierParams(r.Thorough())}
+	if pf := os.Getenv("VERIF_C08_PPROF"); pf != "" { // development aid only
+		fh, _ := os.Create(fmt.Sprintf("%s.%s.%d", pf, j.Phase, j.Shard))
+		pprof.StartCPUProfile(fh)
+		defer pprof.StopCPUProfile()
+	}
 	w.states = buildStates(r, j.Fams)
 	w.comp = make([][]*compiled, len(j.Comp))
 	for li := range j.Comp {
@@ -250,5 +256,6 @@ func childMain(r *vlib.Run, jobFile string) {
 		res.Outside = append(res.Outside, k)
 	}
 	writeGob(j.Out, &res)
+	pprof.StopCPUProfile()
 	os.Exit(0)
 }
